@@ -225,6 +225,16 @@ fn quant(x: f64, ld: i128) -> f64 {
     (x * s).round() / s
 }
 
+/// the value that the digits of a constant encoded at torus precision k really stand for: round(x 2^ld) taken in
+/// [-2^(k-1), 2^(k-1)), over 2^ld (a constant needs log_budget >= 1 bit of headroom per bit of magnitude)
+fn cst_value(x: f64, ld: i128, k: i128) -> f64 {
+    let v = (x * (ld as f64).exp2()).round();
+    if k <= 0 || k > 120 || v.abs() >= 1e30 { return v / (ld as f64).exp2(); }
+    let (vi, m) = (v as i128, 1i128 << k);
+    let w = (vi + m / 2).rem_euclid(m) - m / 2;
+    w as f64 / (ld as f64).exp2()
+}
+
 macro_rules! backend_impl {
     ($m:ident, $BE:ty) => {
         pub mod $m {
@@ -540,8 +550,11 @@ macro_rules! backend_impl {
                                 },
                             };
                             st = status(&r);
-                            let qre = vec![cre.map(|v| quant(v, s[4])).unwrap_or(0.0); m];
-                            let qim = vec![cim.map(|v| quant(v, s[4])).unwrap_or(0.0); m];
+                            // multiplicative constants are encoded at k = prec.min_k(base2k); additive ones at the ciphertext's scale
+                            let b2 = cx.base2k as i128;
+                            let kc = if matches!(op, ADD_CR_INTO | SUB_CR_INTO | ADD_CR_ASSIGN | SUB_CR_ASSIGN) { 0 } else { (s[4] + s[5] + b2 - 1) / b2 * b2 };
+                            let qre = vec![cre.map(|v| cst_value(v, s[4], kc)).unwrap_or(0.0); m];
+                            let qim = vec![cim.map(|v| cst_value(v, s[4], kc)).unwrap_or(0.0); m];
                             shadow = Self::pt_shadow(0, &dst, x, &qre, &qim, op);
                         }
                         NEG_INTO => {
@@ -707,8 +720,10 @@ macro_rules! backend_impl {
                                 }
                                 _ => {
                                     let cs: Vec<_> = (0..n).map(|i| cst_parts(s[6], s[9] as u64 + i as u64)).collect();
+                                    let b2 = cx.base2k as i128;
+                                    let kc = (s[7] + s[8] + b2 - 1) / b2 * b2;
                                     for (cre, cim) in &cs {
-                                        vals.push((vec![cre.map(|v| quant(v, s[7])).unwrap_or(0.0); m], vec![cim.map(|v| quant(v, s[7])).unwrap_or(0.0); m]));
+                                        vals.push((vec![cre.map(|v| cst_value(v, s[7], kc)).unwrap_or(0.0); m], vec![cim.map(|v| cst_value(v, s[7], kc)).unwrap_or(0.0); m]));
                                     }
                                     let rnx: Vec<CKKSPlaintextCstRnx<f64>> = cs.iter().map(|(a, b)| CKKSPlaintextCstRnx::<f64>::new(*a, *b)).collect();
                                     if op == DOT_CR {
@@ -1137,7 +1152,13 @@ macro_rules! gen_impl {
                             (0..n).map(|_| if rng.below(8) == 0 { cands[rng.below(cands.len() as u64) as usize] } else { same[rng.below(same.len() as u64) as usize] }).collect()
                         };
                         let xs: Vec<usize> = if which == MUL_MANY || which == DOT_CT { pick_same_ld(rng, &mach) } else { (0..n).map(|_| cands[rng.below(cands.len() as u64) as usize]).collect() };
-                        let ys: Vec<usize> = if which == DOT_CT { pick_same_ld(rng, &mach) } else { vec![] };
+                        let mut ys: Vec<usize> = if which == DOT_CT { pick_same_ld(rng, &mach) } else { vec![] };
+                        if which == DOT_CT && n >= 2 && !keep {
+                            // the fused path of ckks_dot_product_ct is wrongly scaled for "mixed" lists (known class): avoid it
+                            let amin = xs.iter().map(|r| mach.meta(*r).1).min().unwrap();
+                            let bmin = ys.iter().map(|r| mach.meta(*r).1).min().unwrap();
+                            if (mach.meta(xs[0]).0 - mach.meta(ys[0]).0) * (amin - bmin) < 0 { ys = xs.clone(); }
+                        }
                         if which != ADD_MANY && which != DOT_CZ && which != DOT_CR { fix = xs.iter().chain(ys.iter()).map(|r| *r as i128).collect(); }
                         let (l, lbp) = ptmeta(rng, 20);
                         st(&[which, d, 0, 0, n as i128, pack(&xs), if which == DOT_CT { pack(&ys) } else { parts }, l, lbp, seed])
@@ -1202,11 +1223,16 @@ pub fn generate(tier: &str, seed: u64) -> Vec<Rec> {
         out.push(Rec::new(code, vec![be, logn as i128, b2k as i128, kmax as i128, chk_flag()], steps));
     }
     if value {
-        // ct x ct product of operands with mixed metadata: (30,90)x(20,110) and (20,110)x(30,90) are wrongly scaled, the other two are fine
-        for (la, ka, lb_, kb) in [(30i128, 120i128, 20i128, 130i128), (30, 130, 20, 120), (30, 120, 30, 130), (20, 130, 30, 120)] {
-            let steps = vec![st(&[ALLOC, 0, 0, 0, 7]), st(&[ALLOC, 1, 0, 0, 7]), st(&[ALLOC, 2, 0, 0, 8]),
-                st(&[ENCRYPT, 0, 0, 0, la, 3, ka, 1454563580, 3, 0]), st(&[ENCRYPT, 1, 0, 0, lb_, 3, kb, 2300918428, 0, 0]), st(&[MUL_INTO, 2, 0, 1])];
-            out.push(Rec::new(16002, vec![1, 8, 19, 152, chk_flag()], steps));
+        // ct x ct products of operands with mixed metadata, (30,90)x(20,110) etc. (repaired in fd924ce: regression),
+        // and the same through the fused path of ckks_dot_product_ct (two terms), which still has the defect for the first two
+        for (la, ka, lb_, kb) in [(30i128, 120i128, 20i128, 130i128), (20, 130, 30, 120), (30, 130, 20, 120), (30, 120, 30, 130)] {
+            let pre = vec![st(&[ALLOC, 0, 0, 0, 7]), st(&[ALLOC, 1, 0, 0, 7]), st(&[ALLOC, 2, 0, 0, 8]),
+                st(&[ENCRYPT, 0, 0, 0, la, 3, ka, 1454563580, 3, 0]), st(&[ENCRYPT, 1, 0, 0, lb_, 3, kb, 2300918428, 0, 0])];
+            for last in [st(&[MUL_INTO, 2, 0, 1]), st(&[DOT_CT, 2, 0, 0, 2, pack(&[0, 0]), pack(&[1, 1])])] {
+                let mut steps = pre.clone();
+                steps.push(last);
+                out.push(Rec::new(16002, vec![1, 8, 19, 152, chk_flag()], steps));
+            }
         }
         for logm in 1..=12i128 { for kind in [0i128, 3] { for e in [0i128, 20, -20] {
             out.push(Rec::new(16003, vec![logm, rng.next() as u32 as i128, kind, e], vec![]));
@@ -1217,7 +1243,7 @@ pub fn generate(tier: &str, seed: u64) -> Vec<Rec> {
             let (be, logn, b2k, kmax) = CONFIGS[0];
             let enc = st(&[ENCRYPT, 0, 0, 0, 30, 10, 152, 11, 0]);
             let probes: Vec<Vec<Vec<i128>>> = vec![
-                // K1 rescale_into a smaller destination
+                // rescale_into a smaller destination (repaired: regression)
                 vec![st(&[ALLOC, 0, 0, 0, 8]), st(&[ALLOC, 1, 0, 0, 6]), enc.clone(), st(&[RESCALE_INTO, 1, 0, 0, 3])],
                 // K2 constant more precise than the destination stores
                 vec![st(&[ALLOC, 0, 0, 0, 2]), st(&[ENCRYPT, 0, 0, 0, 30, 8, 38, 11, 0]), st(&[ADD_CR_ASSIGN, 0, 0, 0, 50, 0, 1, 5])],
@@ -1227,6 +1253,11 @@ pub fn generate(tier: &str, seed: u64) -> Vec<Rec> {
                 vec![st(&[ALLOC, 0, 0, 0, 8]), st(&[ALLOC, 1, 0, 0, 1]), st(&[ALLOC, 2, 0, 0, 1]), enc.clone(), st(&[NEG_INTO, 1, 0]), st(&[NEG_ASSIGN, 1]), st(&[COMPACT_COPY, 2, 1])],
                 // K6 product with a vector plaintext of another base2k
                 vec![st(&[ALLOC, 0, 0, 0, 8]), st(&[ALLOC, 1, 0, 0, 8]), enc.clone(), st(&[MUL_PTZ_INTO, 1, 0, 0, 20, 0, 0, 5, 0, 20])],
+                // single-input add_many / mul_many into a destination that is too small: stale metadata, then calls on it
+                vec![st(&[ALLOC, 0, 0, 0, 8]), st(&[ALLOC, 1, 0, 0, 1]), st(&[ALLOC, 2, 0, 0, 1]), enc.clone(), st(&[ADD_MANY, 1, 0, 0, 1, 0]), st(&[NEG_ASSIGN, 1]), st(&[COMPACT_COPY, 2, 1])],
+                vec![st(&[ALLOC, 0, 0, 0, 8]), st(&[ALLOC, 1, 0, 0, 1]), enc.clone(), st(&[MUL_MANY, 1, 0, 0, 1, 0]), st(&[RESCALE_ASSIGN, 1, 0, 0, 2])],
+                // product tree and fused dot product on compact operands
+                vec![st(&[ALLOC, 0, 0, 0, 8]), st(&[ALLOC, 1, 0, 0, 8]), enc.clone(), st(&[MUL_MANY, 1, 0, 0, 3, 0]), st(&[DOT_CT, 1, 0, 0, 3, 0, 0])],
             ];
             for p in probes { out.push(Rec::new(code, vec![be, logn as i128, b2k as i128, kmax as i128, chk_flag()], p)); }
         }
